@@ -403,7 +403,13 @@ func (obj *Real32) UnmarshalJSON(data []byte) error {
       obj.Derivative = r.Derivative
     } else
     if len(r.Derivative) == 0 && len(r.Hessian) != 0 {
-      obj.Alloc(len(r.Derivative), 2)
+      for i := 0; i < len(r.Hessian); i++ {
+        if len(r.Hessian[i]) != len(r.Hessian) {
+          return fmt.Errorf("invalid json scalar representation")
+        }
+      }
+      obj.Alloc(len(r.Hessian), 2)
+      obj.Derivative = make([]float32, len(r.Hessian))
       obj.Hessian = r.Hessian
     }
     return nil
